@@ -18,3 +18,4 @@ open Nitime.C12.Props
 #print axioms analyzer_grid_flag
 #print axioms analyzer_retarget_spectra
 #print axioms analyzer_spectra_after_set_input
+#print axioms causality_scale_invariant
